@@ -137,8 +137,9 @@ def gen_model(rng, t, profile):
     if m["alpha_tau"] < m["dt"] and rng.random() < 0.5:
         m["alpha_tau"] = m["dt"]        # otherwise: a step longer than the characteristic time (rate > 1)
     m["rebuild_tau"] = rng.choice([10, 60, 365])
+    m["year_factor"] = rng.choice([365, 365, 365, 52, 12])      # temporal units per year of the table (accepted with a warning)
     m["monetary_factor"] = rng.choice([1, 10**3, 10**6])
-    inv_mode = profile.get("inv_mode") or rng.choice(["default", "short", "dict", "inf_list", "inf_dict", "le_dt"])
+    inv_mode = profile.get("inv_mode") or rng.choice(["default", "short", "dict", "inf_list", "inf_dict", "le_dt", "dict_inf_list"])
     m["main_inv_dur"] = rng.choice([90, 30, 10])
     if inv_mode == "short":
         m["main_inv_dur"] = rng.choice([2, 3, 5]) * m["dt"]
@@ -153,6 +154,12 @@ def gen_model(rng, t, profile):
         items[rng.randrange(len(items))][1] = rng.choice(["inf", "Infinity"])
         rng.shuffle(items)
         m["inventory_dict"] = items
+    elif inv_mode == "dict_inf_list":
+        # a full dictionary of durations AND a list of inputs declared infinite that names some of its keys
+        items = [[s, rng.choice([5, 30, 90]) * m["dt"]] for s in sectors]
+        rng.shuffle(items)
+        m["inventory_dict"] = items
+        m["infinite_inventories_sect"] = rng.sample(sectors, rng.randint(1, max(1, len(sectors) - 1)))
     elif inv_mode == "le_dt":
         items = [[s, rng.choice([30, 90]) * m["dt"]] for s in sectors]
         items[rng.randrange(len(items))][1] = m["dt"]
@@ -160,6 +167,7 @@ def gen_model(rng, t, profile):
     m["inv_mode"] = inv_mode
     if m["class"] == "psi":
         m["psi"] = profile.get("psi") or rng.choice([0.1, 0.5, 0.8, 0.8, 1.0])
+        m["psi_form"] = rng.choice(["float", "float", "str_dot", "str_us", "int"])
         if rng.random() < 0.6:
             m["inventory_restoration_tau"] = rng.choice([1, 10, 60]) * m["dt"]
         else:
@@ -236,6 +244,11 @@ def gen_event(rng, t, m, K, horizon, kind=None, profile=None):
     if profile.get("rec_dur"):
         dur = rng.randint(profile["rec_dur"][0], max(profile["rec_dur"][0], min(profile["rec_dur"][1], horizon - occ)))
     e["occ"], e["dur"] = occ, dur
+    u = rng.random()
+    if u < 0.12 and occ > 1:
+        e["redate"] = rng.randint(1, occ - 1)        # built earlier, moved later with the occurrence setter
+    elif u < 0.2:
+        e["relength"] = rng.randint(1, 3)             # built longer, shortened with the duration setter
     if kind in ("rebuild", "recovery"):
         mu = m["monetary_factor"]
         emf = rng.choice([None, None, 1, 10**3, 10**6]) if not profile.get("emf_same") else mu
@@ -251,6 +264,20 @@ def gen_event(rng, t, m, K, horizon, kind=None, profile=None):
             if profile.get("house_mult_alt") and rng.random() < 0.7:
                 lo_h, hi_h = profile["house_mult_alt"]
             e["households"] = [[list(h), tot * rng.uniform(lo_h, hi_h)] for h in sorted(hh)]
+    if kind in ("rebuild", "recovery") and rng.random() < profile.get("p_scalar_ctor", 0.2) and len(e["impact"]) >= 1:
+        # the same impact handed over through the scalar constructor (total + affected industries + weights)
+        vals = [v for _, v in e["impact"]]
+        tot = math.fsum(vals)
+        e["ctor"] = "scalar_industries"
+        e["scalar"] = tot
+        e["industries"] = [lab for lab, _ in e["impact"]]
+        if rng.random() < 0.5 and len(vals) > 1:
+            e["distrib"] = [[lab, v] for lab, v in e["impact"]]
+            sw = sum(vals)
+            e["impact"] = [[lab, tot * (v / sw)] for lab, v in e["impact"]]
+        else:
+            e["distrib"] = "equal"
+            e["impact"] = [[lab, tot / len(vals)] for lab, _ in e["impact"]]
     if kind == "rebuild":
         e["tau"] = rng.choice(profile.get("reb_tau") or [dt * 5, dt * 20, 60, 365, max(1, dt - 2), max(1, dt // 2)])
         if profile.get("reb_tau_rel"):
@@ -269,7 +296,7 @@ def gen_event(rng, t, m, K, horizon, kind=None, profile=None):
         e["factor"] = rng.choice([1.0, 1.0, 0.5, 1.7])
     elif kind == "recovery":
         e["tau"] = rng.choice(profile.get("rec_tau") or [1, 3, 10, 40])
-        e["recovery_function"] = rng.choice(["linear", "convexe", "convexe noscale", "concave", "user"])
+        e["recovery_function"] = rng.choice(["linear", "convexe", "convexe noscale", "concave", "user", "user_fixed"])
     else:
         n = rng.randint(1, min(3, len(inds)))
         ks = sorted(rng.sample(range(len(inds)), n))
@@ -282,7 +309,7 @@ def gen_event(rng, t, m, K, horizon, kind=None, profile=None):
         lo_, hi_ = profile.get("arb_hi") or (0.05, 0.9)
         e["impact"] = [[list(inds[k]), round(rng.uniform(lo_, hi_), 3)] for k in ks]
         e["tau"] = rng.choice(profile.get("rec_tau") or [1, 3, 10])
-        e["recovery_function"] = rng.choice(["linear", "convexe", "convexe noscale", "concave", "user"])
+        e["recovery_function"] = rng.choice(["linear", "convexe", "convexe noscale", "concave", "user", "user_fixed"])
     return e
 
 
@@ -324,6 +351,9 @@ PROFILES = {
     "fast_rebuild": dict(events=(1, 2), kinds=["rebuild"], horizon=(10, 20), p_house=0.9, dt_choices=[2, 7, 7],
                          reb_tau_rel=[(1, 3), (1, 2), (2, 3), (1, 1)], frac_lo=1e-4, frac_hi=5e-2, house_mult=(0.5, 4.0),
                          occ_max=9, alpha_max_choices=[1.25, 2.0], sparsity_choices=["dense", "dense", "partial_final", "random_zeros"]),
+    # relays: an event occurring exactly when (or one or two steps after) another one has just finished
+    "relay": dict(events=2, kinds=["recovery"], horizon=(20, 30), relay=True, rec_tau=[1, 2, 3, 4], rec_dur=(1, 3), occ_max=4,
+                  frac_hi=0.5),
     # capital specifications with industries owning nothing, and events destroying more than is owned
     "overkill": dict(events=(1, 3), kinds=["rebuild", "recovery", "recovery"], horizon=(10, 20), overkill=0.6, zero_capital=True,
                      sparsity_choices=["dense", "zero_output", "zero_output", "random_zeros", "partial_final"],
@@ -369,6 +399,16 @@ def gen_scenario(seed, profile_name="mixed", overrides=None):
         e = gen_event(rng, t, m, [v / max(1, ne) for v in Kleft], n, kind=kind, profile=prof)
         e["name"] = f"ev{k}"
         events.append(e)
+    if prof.get("relay") and len(events) == 2:
+        a, b = events
+        a["recovery_function"] = "linear"            # gone exactly tau temporal units after recovery starts
+        dt_ = m["dt"]
+        fin = a["occ"] + a["dur"] + a["tau"]
+        fin_step = -(-fin // dt_) * dt_               # the step at which the first event is found finished
+        b["occ"] = min(n - 2, fin_step + rng.choice([-dt_, 0, 0, dt_, dt_, 2 * dt_]))
+        b["occ"] = max(1, b["occ"])
+        b["dur"] = max(1, min(b["dur"], n - b["occ"]))
+        b.pop("redate", None)
     scn = dict(
         id=f"{profile_name}-{seed}", seed=seed, profile=profile_name, table=t, model=m,
         sim=dict(n=n, register_stocks=bool(prof.get("register_stocks", rng.random() < 0.3))), events=events,
